@@ -185,6 +185,10 @@ Proof.
   apply (safe_sound (fun s => negb (good cfg ev s)) fuel (init cfg ev) H s Hr).
 Qed.
 
+(* fuel of the explorer (todo-list pops); generous *)
+Definition fuel_1m : nat := 1000000.
+Definition fuel_2m : nat := 2000000.
+
 Definition rel (i : nat) : env := EDeliver i DRelease.
 
 (* two established associations, each released and each silent past the read timeout, all interleavings *)
